@@ -491,6 +491,13 @@ def _guard_atoms(test, local_names):
                     return ast.copy_location(ast.Attribute(value=n.value, attr='_A', ctx=n.ctx), n)      # which private field: not part of the guard's shape
                 return n
 
+            def visit_Subscript(self, n):
+                # an entry of a local mapping picked by a literal key (data['ne']) is 'a local value' like a plain local
+                if isinstance(n.value, ast.Name) and n.value.id in local_names and isinstance(n.slice, ast.Constant) and isinstance(n.slice.value, str):
+                    return ast.copy_location(ast.Name(id='_', ctx=ast.Load()), n)
+                self.generic_visit(n)
+                return n
+
             def visit_Constant(self, n):
                 if not consts and isinstance(n.value, (int, float)) and not isinstance(n.value, bool):
                     return ast.copy_location(ast.Name(id='#', ctx=ast.Load()), n)
@@ -591,10 +598,11 @@ GUARD_EXCEPTIONS = {
     ('cherab.core.math.interpolators.interpolators3d', '_Interpolate3DBase.__init__', 'f.ndim != 3'): 'the data table of a 3D interpolator is three-dimensional (the axes are 1D)',
     ('cherab.core.math.transform.periodic', 'PeriodicTransform1D.__init__', 'period <= 0'): 'a 1D periodic transform needs a positive period; the 2D / 3D ones accept 0 for a non-periodic axis',
     ('cherab.core.math.transform.periodic', 'VectorPeriodicTransform1D.__init__', 'period <= 0'): 'as PeriodicTransform1D',
+    ('cherab.core.model.lineshape.zeeman', 'ParametrisedZeemanTriplet.__init__', 'beta < 0'): 'beta = 0 (no quadratic Zeeman term) is a legal parameter; only negative values are rejected',
 }
 
 
-def sibling_guards(run, rule, modules):
+def sibling_guards(run, rule, modules, min_major=4):
     """Cross-check of sibling guards (Engler et al., 'bugs as deviant behaviour'): the functions of one area repeat the same guard clauses --
     'if not isinstance(x, Element): raise TypeError', 'if not valid_charge(e, z): raise ValueError', 'if a.ndim != 1: raise', 'p = p or
     DEFAULT'.  Guards are compared as boolean functions of canonical atoms (so 'not a == b' and 'a != b' are one guard); where at least
@@ -638,14 +646,14 @@ def sibling_guards(run, rule, modules):
     n = 0
     for (sk, kind), variants in sorted(groups.items(), key=lambda kv: str(kv[0])):
         total = sum(len(v) for v in variants.values())
-        if total < 5 or len(variants) < 2:
-            if total >= 5:
+        if total < min_major + 1 or len(variants) < 2:
+            if total >= min_major + 1:
                 n += 1
                 run.subject(rule)
                 run.ok(rule, 'guard %s -> %s' % (' ; '.join(sk)[:60], kind), '%d siblings agree' % total, sample=False)
             continue
         major = max(variants.items(), key=lambda kv: len(kv[1]))
-        if len(major[1]) < 4 or len(major[1]) < 0.75 * total:
+        if len(major[1]) < min_major or len(major[1]) < 0.75 * total:
             continue
         for key, sites in variants.items():
             if key == major[0] or len(sites) > 2:
